@@ -1,12 +1,15 @@
 package checks
 
 import (
+	"bytes"
 	"encoding/json"
 	"fmt"
+	"strings"
 	"sync/atomic"
 
 	"github.com/paulsonkoly/chess-3/board"
 	"github.com/paulsonkoly/chess-3/move"
+	"github.com/paulsonkoly/chess-3/uci"
 
 	"verif/eng"
 	"verif/ev"
@@ -45,10 +48,42 @@ func c01Compare(ms *move.Store, b *board.Board, p *refchess.Pos) string {
 	return ""
 }
 
+// c01ViaUCI plays every legal move of p through the GUI path (`position fen F moves m`) on one driver and
+// compares the position the driver ends up in (`fen`) with the one MakeMove produces: a legal move the
+// driver does not play is a move the engine does not treat as playable. It returns "" or a description.
+func c01ViaUCI(ld *eng.Loader, p *refchess.Pos, lm []refchess.Move) (string, string) {
+	var script strings.Builder
+	fen := p.FEN()
+	for _, m := range lm {
+		fmt.Fprintf(&script, "position fen %s moves %s\nfen\n", fen, m.String())
+	}
+	var out, errb bytes.Buffer
+	uci.NewDriver(uci.WithInput(strings.NewReader(script.String())), uci.WithOutput(&out), uci.WithError(&errb), uci.WithSearch(nullSearch{})).Run()
+	lines := strings.Split(strings.TrimSpace(out.String()), "\n")
+	if len(lines) != len(lm) {
+		return "", fmt.Sprintf("%d `fen` commands, %d lines answered", len(lm), len(lines))
+	}
+	for i, m := range lm {
+		b := ld.Load(p)
+		b.MakeMove(move.Move(m.Enc()))
+		if want := b.FEN(); lines[i] != want {
+			return m.String(), fmt.Sprintf("`position fen %s moves %s` leaves the driver at %q, playing the move yields %q", fen, m.String(), lines[i], want)
+		}
+	}
+	return "", ""
+}
+
 func c01Replay(class string, raw json.RawMessage) (bool, string) {
 	var c c01Case
 	if err := json.Unmarshal(raw, &c); err != nil {
 		return false, err.Error()
+	}
+	if c.How == "uci" {
+		p := refchess.MustFEN(c.FEN)
+		var ld eng.Loader
+		var buf [256]refchess.Move
+		_, msg := c01ViaUCI(&ld, &p, p.LegalMoves(buf[:0]))
+		return msg != "", msg
 	}
 	p := refchess.MustFEN(c.FEN)
 	b := eng.Load(&p)
@@ -151,11 +186,24 @@ func runC01(r *ev.Run) {
 	r.Set("u1_complete", complete)
 	// the rights- and en-passant-bearing positions of further classes (castling out of / through / into attack by
 	// every kind of attacker, rights lost by capture on the corners, en-passant captures with pins)
+	var viaUCI atomic.Int64
 	visitSpecial := func(w *c01Worker, p *refchess.Pos) {
 		b := w.ld.Load(p)
 		check(w.ms, b, p, func() c01Case { return c01Case{FEN: p.FEN(), How: "fen"} })
 		stat(p)
 		r.Nontrivial.Add(1)
+		// where castling is legal, every legal move also through the GUI's `position .. moves ..` path
+		var buf [256]refchess.Move
+		lm := p.LegalMoves(buf[:0])
+		for _, m := range lm {
+			if k := p.Sq[m.From]; (k == refchess.King || k == -refchess.King) && (m.To-m.From == 2 || m.From-m.To == 2) {
+				viaUCI.Add(int64(len(lm)))
+				if mv, msg := c01ViaUCI(&w.ld, p, lm); msg != "" {
+					r.Fail("uci-played", c01Case{FEN: p.FEN(), Moves: []string{mv}, How: "uci"}, "%s", msg)
+				}
+				break
+			}
+		}
 	}
 	castling := parseClasses([]string{"KRkr", "KRkb", "KRkn", "KRkq", "KRRk", "KRkp", "KRPk", "KQkr", "KBkr", "KNkr"})
 	forCastlingPositions(r, castling, newW, visitSpecial)
@@ -164,6 +212,7 @@ func runC01(r *ev.Run) {
 		forClasses(r, pawnEP, universe.Opts{OnlySpecial: true, NoRights: true}, newW, visitSpecial)
 	}
 	r.Set("castling_subclasses", classNames(castling))
+	r.Set("moves_played_through_uci_position_command", viaUCI.Load())
 	r.Set("en_passant_subclasses", classNames(pawnEP))
 	if r.Thorough() {
 		// constrained 5-man classes: the lone side's king confined to the corner region
